@@ -42,7 +42,7 @@ func init() {
 				return 400_000
 			}, Run: c19Registers,
 				Rule: "register-level oracle: gradient value, stop registers, matrix registers, untouched other registers, selectors restored, errors before any write",
-				Min: map[string]int64{"accepted": 20000, "rejected_too_many": 5000, "rejected_csel_in_range": 2000, "on_encoder": 20000, "destination_used_before": 50000, "on_renderer": 20000, "prior_increments": 20000,
+				Min: map[string]int64{"accepted": 20000, "rejected_too_many": 5000, "rejected_csel_in_range": 2000, "on_encoder": 20000, "destination_used_before": 50000, "same_gradient_written_before_reset": 50000, "on_renderer": 20000, "prior_increments": 20000,
 					"stops_58": 200, "stops_256_to_314": 1000, "renderer_csel_unreduced": 1000}},
 			{Name: "geometry", N: func(t string) uint64 {
 				if t == "thorough" {
@@ -228,6 +228,23 @@ func c19Registers(c *run.Ctx, idx uint64) {
 		c.Count("on_encoder", 1)
 	}
 	d := &rec.Dest{Tee: real}
+	g := generate.Generator{}
+	g.SetDestination(d)
+	if r.Chance(1, 4) {
+		// The same Generator has already written this very gradient, after the
+		// same selector history, into the previous graphic on this destination: a
+		// helper that remembers what it wrote last must not skip the writes now.
+		c.Count("same_gradient_written_before_reset", 1)
+		if !c.Guard("helper (previous graphic)", func() interface{} { return q.desc() }, func() {
+			c19Prior(c, r.Clone(), d)
+			q.do(&g)
+			d.Reset(ivg.DefaultViewBox, pal)
+		}) {
+			return
+		}
+		d.Ops = d.Ops[:0]
+		rz.ResetLog()
+	}
 	c19Prior(c, r, d)
 	vm := ref.NewVM(ivg.DefaultViewBox, pal)
 	for i := range d.Ops {
@@ -243,8 +260,6 @@ func c19Registers(c *run.Ctx, idx uint64) {
 		c.Violate("selector-readback-before-call", map[string]interface{}{"destination": fmt.Sprintf("%T", real), "csel": csel0, "nsel": nsel0, "machine": []int{vm.CSel, vm.NSel}})
 		return
 	}
-	g := generate.Generator{}
-	g.SetDestination(d)
 	if r.Bool() {
 		// the Generator's path-data transform is configured: gradient geometry is
 		// given in viewBox coordinates and must not be affected
